@@ -1,12 +1,12 @@
 SPECIFICATION Spec
 CONSTANTS
   P = 2
-  S = 0
-  Bug = "RangeDelLE"
-  NL = 2
-  MaxW = 2
+  S = 1
+  Bug = "ReuseUpperInclusive"
+  MaxN = 2
+  Seqs = 1
   Kinds = {1}
-  MaxOps = 0
+  MaxOps = 1000000
   Emit = FALSE
 INVARIANT Inv
 VIEW View
